@@ -4,6 +4,8 @@ mod core;
 mod gen;
 mod json;
 mod props;
+mod refenc;
+mod walker;
 mod rng;
 mod text;
 
